@@ -214,6 +214,72 @@ def add_case(family, desc, p):
             post.append('\tvAssert(%s(o.P) == %s, name+": the bound value is not the one carried by the request")' % (wide, val))
             post.append("}")
         c.post = post
+    elif p["items"]["type"] == "array":
+        # array of arrays: outer items joined by the outer separator, each being inner items joined by the inner one
+        inner = p["items"]
+        leaf = inner["items"]
+        ofmt, ifmt = p.get("collectionFormat", ""), inner.get("collectionFormat", "")
+        osep, isep = SEP[ofmt], SEP[ifmt]
+        assert osep != isep
+        k = kind_of(leaf)
+        c.emit('n := vInt("n", 0, 2)')
+        rows = []
+        for i in range(2):
+            c.emit('m%d := vInt("m%d", 1, 2)' % (i, i))
+            cells = []
+            for j in range(2):
+                raw, parses, val = gen_text(c, leaf, "e%d%d" % (i, j), 1, ",| \t\n\r\v\f")
+                c.emit("vAssume(len(%s) > 0)" % raw)
+                if k == "int":
+                    # (unparsable items are covered by the flat array operations)
+                    c.emit("vAssume(vAnd(%s[0] >= '0', %s[0] <= '9'))" % (raw, raw))
+                cells.append((raw, parses, val))
+            c.emit("row%d := %s" % (i, cells[0][0]))
+            c.emit("if m%d > 1 {" % i)
+            c.emit("\trow%d = row%d + %s + %s" % (i, i, json.dumps(isep), cells[1][0]))
+            c.emit("}")
+            rows.append(cells)
+        c.emit("var rawData []string")
+        c.emit("if hasKey {")
+        c.emit('\tjoined := ""')
+        c.emit("\tif n > 0 {")
+        c.emit("\t\tjoined = row0")
+        c.emit("\t}")
+        c.emit("\tif n > 1 {")
+        c.emit("\t\tjoined = joined + %s + row1" % json.dumps(osep))
+        c.emit("\t}")
+        c.emit("\trawData = []string{joined}")
+        c.emit("}")
+        c.emit("empty := vOr(!hasKey, n == 0)")
+        r = []
+        for i, cells in enumerate(rows):
+            rr = []
+            for j, (_, parses, val) in enumerate(cells):
+                rr.append(OR("m%d <= %d" % (i, j), AND(parses, scalar_constraints(leaf, val, k))))
+            if "minItems" in inner:
+                rr.append("m%d >= %d" % (i, inner["minItems"]))
+            if "maxItems" in inner:
+                rr.append("m%d <= %d" % (i, inner["maxItems"]))
+            r.append(OR("n <= %d" % i, AND(*rr)))
+        if "minItems" in p:
+            r.append("n >= %d" % p["minItems"])
+        if "maxItems" in p:
+            r.append("n <= %d" % p["maxItems"])
+        cons = AND(*r)
+        c.ref = AND("!empty", cons) if required else OR("empty", cons)
+        wide = {"int": "int64", "num": "float64", "str": "string", "bool": "bool"}[k]
+        post = ["if !empty {"]
+        post.append('\tvAssert(len(o.P) == n, name+": the bound array has a different number of rows than the request")')
+        for i, cells in enumerate(rows):
+            post.append("\tif n > %d && len(o.P) > %d {" % (i, i))
+            post.append('\t\tvAssert(len(o.P[%d]) == m%d, name+": a row of the bound array has a different number of items than the request")' % (i, i))
+            for j, (_, _, val) in enumerate(cells):
+                post.append("\t\tif m%d > %d && len(o.P[%d]) > %d {" % (i, j, i, j))
+                post.append('\t\t\tvAssert(%s(o.P[%d][%d]) == %s, name+": an item of the bound array is not the one carried by the request")' % (wide, i, j, val))
+                post.append("\t\t}")
+            post.append("\t}")
+        post.append("}")
+        c.post = post
     else:
         items = p["items"]
         fmt = p.get("collectionFormat", "")
@@ -274,7 +340,7 @@ def add_case(family, desc, p):
         post.append("}")
         c.post = post
     CASES.append(c)
-    if "default" not in p:
+    if "default" not in p and not (p["type"] == "array" and p["items"]["type"] == "array"):
         INTEROP.append((c, p))
 
 
@@ -322,6 +388,21 @@ def build():
         add_case("boolean", "boolean optional in %s" % loc, {"in": loc, "type": "boolean"})
     add_case("boolean", "boolean optional with default true", {"in": "query", "type": "boolean", "default": True})
     add_case("boolean", "boolean enum [true]", {"in": "query", "type": "boolean", "enum": [True], "required": True})
+    # arrays of arrays
+    for ofmt, ifmt in [("", "pipes"), ("pipes", "csv"), ("ssv", "pipes")]:
+        for leaf_name, leaf in [("string enum", {"type": "string", "enum": ["a", "b"]}), ("int32 max", {"type": "integer", "format": "int32", "maximum": 7})]:
+            for vn, v, iv in [("plain", {}, {}), ("inner maxItems 1", {}, {"maxItems": 1}), ("outer maxItems 1", {"maxItems": 1}, {}), ("inner minItems 2", {}, {"minItems": 2})]:
+                inner = {"type": "array", "items": leaf}
+                if ifmt:
+                    inner["collectionFormat"] = ifmt
+                inner.update(iv)
+                base = {"type": "array", "items": inner, "in": "query"}
+                if ofmt:
+                    base["collectionFormat"] = ofmt
+                base.update(v)
+                add_case("nested", "array(%s) of array(%s) of %s, %s, optional" % (ofmt or "default", ifmt or "default", leaf_name, vn), dict(base))
+                if vn == "plain":
+                    add_case("nested", "array(%s) of array(%s) of %s, %s, required" % (ofmt or "default", ifmt or "default", leaf_name, vn), dict(base, required=True))
     # arrays
     for fmt in ["", "csv", "pipes", "ssv", "tsv", "multi"]:
         locs_a = ["query"] if fmt == "multi" else ["query", "header"]
